@@ -8,14 +8,24 @@ import numpy as np
 import common as C
 import loop_traces as LT
 
-THEORIES = ["Base", "EALoop", "EALoopProofs", "EALoopProofs2", "EAStore", "EAStoreProofs", "LoopCheck"]
-TRUSTED = ["model: coq/theories/EALoop.v; replay checker coq/theories/LoopCheck.v; trace recorder harness/loop_traces.py "
+THEORIES = ["Base", "EALoop", "EALoopProofs", "EALoopProofs2", "EAStore", "EAStoreProofs", "LoopCheck",
+            "RandomPrims", "Py", "PyLemmas", "GenLoop", "CodeEqLoop"]
+TRUSTED = ["translator harness/translate_loop.py (class TheFittest and the scalar stopping logic of EvolutionaryAlgorithm -> gen/GenLoop.v, "
+           "regenerated on every run; classes as records, methods as functions on them, -inf as the extended rationals of coq/theories/Py.v); "
+           "update_best / terminate / aim_of of the loop model are PROVED equal to the generated definitions (theories/CodeEqLoop.v)",
+           "model: coq/theories/EALoop.v; replay checker coq/theories/LoopCheck.v; trace recorder harness/loop_traces.py "
            "(objective / genotype_to_phenotype wrappers, on_generation callback, np.shares_memory / `is` alias observations)"]
 ASSUMPTIONS = ["objective values finite (no NaN/inf: the record is never initialised on an all -inf batch)",
                "objective and genotype_to_phenotype are deterministic functions of the individual",
                "every batch of the variation operators has pop_size individuals (their side: C06-C08)"]
 DIFF = {1: "number of generations", 2: "evaluation count", 3: "callback count", 4: "best-so-far triple", 5: "stagnation counter",
         6: "final population (after elitism)", 7: "history entries"}
+
+
+def gen(ctx):
+    """(T) regenerate gen/GenLoop.v from base/_ea.py in the working tree; fail closed"""
+    import translate_loop as TL
+    TL.emit()
 
 
 def configs(ctx, n_per_kind, force=None):
